@@ -32,6 +32,20 @@ func (c *caseT) fails(x int) bool {
 	}
 	return false
 }
+
+// errFor: the error a failing element produces. One in three wraps context.DeadlineExceeded or
+// context.Canceled (a step that timed out on its own sub-context) — the pipeline's context is alive.
+func (c *caseT) errFor(x int) error {
+	switch mix(x, c.FSeed+9) % 3 {
+	case 0:
+		if mix(x, c.FSeed+10)%2 == 0 {
+			return ctxErr{x, context.DeadlineExceeded}
+		}
+		return ctxErr{x, context.Canceled}
+	}
+	return idErr(x)
+}
+
 func (c *caseT) delay(x int) time.Duration {
 	if c.Delay <= 0 {
 		return 0
@@ -117,7 +131,7 @@ func (w *world) fMap(x int) (int, error) {
 		time.Sleep(d)
 	}
 	if w.c.fails(x) {
-		return 0, idErr(x)
+		return 0, w.c.errFor(x)
 	}
 	return w.c.img(x), nil
 }
@@ -134,6 +148,9 @@ func (w *world) fEach(x int) (int, error) {
 	if d := w.c.delay(x); d > 0 {
 		time.Sleep(d)
 	}
+	if w.c.fails(x) {
+		return 0, w.c.errFor(x) // ForEach has no error output: a failing visit is just a visit
+	}
 	return x, nil
 }
 func (w *world) fArrow(ctx context.Context, x int, out chan<- int) error {
@@ -142,7 +159,7 @@ func (w *world) fArrow(ctx context.Context, x int, out chan<- int) error {
 		time.Sleep(d)
 	}
 	if w.c.fails(x) {
-		return idErr(x)
+		return w.c.errFor(x)
 	}
 	for _, v := range w.c.fanOut(x) {
 		select {
@@ -159,14 +176,14 @@ func (w *world) fNext(x int) (int, error) {
 		time.Sleep(d) // a slow step function: the consumer is already waiting when the next value is ready
 	}
 	if w.c.fails(x) {
-		return 0, idErr(x)
+		return 0, w.c.errFor(x)
 	}
 	return w.c.next(x), nil
 }
 func (w *world) fEmit(i int) (int, error) {
 	w.called(i)
 	if w.c.fails(i) {
-		return 0, idErr(i)
+		return 0, w.c.errFor(i)
 	}
 	return w.c.emitV(i), nil
 }
